@@ -321,7 +321,13 @@ class Sync(Shape):
         from .extmodels import SSync
         st = dict(self.st)
         if self.kind == "queue":
-            st["items"] = list(st.get("items", []))
+            st["items"] = [sh.make(ctx, "%s.q[%d]" % (name, i)) if isinstance(sh, Shape) else sh
+                           for i, sh in enumerate(st.get("items", []))]
+            if st.get("extra") is True:       # an unknown number (>= 0) of further items behind those
+                t = z3.Int(name + ".extra")
+                ctx.inputs[name + ".extra"] = t
+                ctx.assume_raw(t >= 0)
+                st["extra"] = SInt(t)
         if self.kind == "lock":
             st.setdefault("held", False)
         if self.kind == "event":
@@ -329,7 +335,14 @@ class Sync(Shape):
         return SSync(self.kind, **st)
 
     def concretize(self, vals, name, made):
-        return {"t": "sync", "kind": self.kind}
+        d = {"t": "sync", "kind": self.kind}
+        if self.kind == "queue":
+            d["items"] = [sh.concretize(vals, "%s.q[%d]" % (name, i), None) if isinstance(sh, Shape)
+                          else encode_concrete(sh) for i, sh in enumerate(self.st.get("items", []))]
+            d["extra"] = vals.get(name + ".extra", 0) if self.st.get("extra") else 0
+        else:
+            d["st"] = {k: v for k, v in self.st.items() if isinstance(v, (bool, int))}
+        return d
 
 
 class Handler(Shape):
@@ -353,6 +366,20 @@ class Handler(Shape):
 
     def concretize(self, vals, name, made):
         return {"t": "handler", "tag": self.tag}
+
+
+class NTuple(Shape):
+    """an instance of a real namedtuple class with the given fields"""
+
+    def __init__(self, cls, **fields):
+        self.cls, self.fields = cls, fields
+
+    def make(self, ctx, name):
+        return self.cls(**{k: sh.make(ctx, "%s.%s" % (name, k)) for k, sh in self.fields.items()})
+
+    def concretize(self, vals, name, made):
+        return {"t": "ntuple", "cls": self.cls.__module__ + ":" + self.cls.__qualname__,
+                "fields": {k: sh.concretize(vals, "%s.%s" % (name, k), None) for k, sh in self.fields.items()}}
 
 
 class DictOf2(Shape):
